@@ -60,10 +60,19 @@ class Lock:
         self.f.close()
 
 
-def run(cmd, cwd=None, env=None, timeout=1200, input=None):
+def _limit_mem(gb):
+    def f():
+        import resource
+        lim = int(gb * (1 << 30))
+        resource.setrlimit(resource.RLIMIT_AS, (lim, lim))
+    return f
+
+
+def run(cmd, cwd=None, env=None, timeout=1200, input=None, mem_gb=None):
     try:
         p = subprocess.run(cmd, cwd=cwd, env=env, timeout=timeout, input=input,
-                           stdout=subprocess.PIPE, stderr=subprocess.STDOUT, text=True)
+                           stdout=subprocess.PIPE, stderr=subprocess.STDOUT, text=True,
+                           preexec_fn=_limit_mem(mem_gb) if mem_gb else None)
         return p.returncode, p.stdout
     except subprocess.TimeoutExpired as ex:
         out = ex.stdout or ''
@@ -170,7 +179,9 @@ def coq_check_props(prop, timeout=900):
 def _coqc_shard(args):
     path, timeout = args
     t0 = time.time()
-    rc, log = run(['coqc'] + coq_q_args() + [path], cwd=COQ, timeout=timeout)
+    # a shard that needs more than 6 GB is a defect of the check (or a runaway evaluation): fail it, do not
+    # take the machine down
+    rc, log = run(['coqc'] + coq_q_args() + [path], cwd=COQ, timeout=timeout, mem_gb=6)
     return path, rc, log, time.time() - t0
 
 
@@ -196,7 +207,7 @@ def eval_cases(prop, header, case_terms, shard_size=60, checker='mismatches', ti
     failures = []
     logs = []
     ok = True
-    with ThreadPoolExecutor(max_workers=16) as ex:
+    with ThreadPoolExecutor(max_workers=int(os.environ.get('VERIF_COQ_JOBS', '10'))) as ex:
         results = list(ex.map(_coqc_shard, [(p, timeout) for p, _ in shards]))
     for (p, base), (_, rc, log, dt) in zip(shards, results):
         if rc != 0:
